@@ -170,7 +170,7 @@ func (c *Ctx) checkTokenAuth() {
 	}
 	// f. MAC key = configured salt
 	okKey := false
-	core.AllInstrs(fn, func(in ssa.Instruction) {
+	c.withCallees(fn, 2, func(_ *ssa.Function, in ssa.Instruction, _ ssa.Instruction) {
 		if call, ok := in.(*ssa.Call); ok && calleeFullName(call) == "crypto/hmac.New" {
 			if core.IsFieldLoad(saltF)(call.Call.Args[1]) {
 				okKey = true
@@ -224,7 +224,7 @@ func (c *Ctx) checkAPIKeyRule() {
 	}
 	saltF := c.globalStructField("server", "globals", "apiKeySalt")
 	okKey := false
-	core.AllInstrs(fn, func(in ssa.Instruction) {
+	c.withCallees(fn, 2, func(_ *ssa.Function, in ssa.Instruction, _ ssa.Instruction) {
 		if call, ok := in.(*ssa.Call); ok && calleeFullName(call) == "crypto/hmac.New" && core.IsFieldLoad(saltF)(call.Call.Args[1]) {
 			okKey = true
 		}
@@ -246,10 +246,12 @@ func (c *Ctx) checkCodeAuth() {
 		return
 	}
 	// the attempt counter: result of strconv.Atoi
-	isCount := func(v ssa.Value) bool {
+	isAtoi := func(v ssa.Value) bool {
 		ex, ok := core.Strip(v).(*ssa.Extract)
 		return ok && ex.Index == 0 && calleeFullName(ex.Tuple) == "strconv.Atoi"
 	}
+	// also when the stored value is decoded by an extracted parser returning the counter
+	isCount := func(v ssa.Value) bool { return isAtoi(v) || core.Derives(core.Strip(v), isAtoi, true) }
 	gCount := core.LessGuard("count<maxRetries", isCount, core.IsFieldLoad(maxRetries), true)
 	// code equality: comparison of two strings where one derives from the secret parameter
 	secretP := fn.Params[1]
@@ -324,6 +326,9 @@ func derivesAny(v ssa.Value, p core.VPred) bool {
 		seen[x] = true
 		if p(x) {
 			return true
+		}
+		if w, ok := core.ParamSubst[x]; ok && w != x {
+			return walk(w, d+1)
 		}
 		switch y := x.(type) {
 		case *ssa.Call:
